@@ -185,6 +185,70 @@ def _nontrivial(case, obs):
     return False
 
 
+def reentrant_probe(case):
+    """Implementation-only probe (re-entrant (un)subscription is outside the Lean model): callbacks that
+    subscribe / unsubscribe while a document is being dispatched.  Every callback that was live when the
+    document was emitted must still receive it exactly once, in subscription order, and with exceptions ignored
+    nothing may escape process()."""
+    import warnings
+
+    from bluesky.run_engine import Dispatcher
+    from event_model import DocumentNames
+
+    disp = Dispatcher()
+    disp.ignore_exceptions = bool(case["ignore"])
+    log, tokens, bad = [], {}, []
+
+    def make(i, action):
+        def cb(name, doc):
+            log.append((i, doc["n"]))
+            if action and action[0] == "unsub_self" and doc["n"] == action[1]:
+                disp.unsubscribe(tokens[i])
+            if action and action[0] == "unsub_other" and doc["n"] == action[1] and action[2] in tokens:
+                disp.unsubscribe(tokens[action[2]])
+            if action and action[0] == "sub_new" and doc["n"] == action[1]:
+                j = 100 + i
+                tokens[j] = disp.subscribe(make(j, None), "event")
+
+        return cb
+
+    for i, action in enumerate(case["cbs"]):
+        tokens[i] = disp.subscribe(make(i, action), "event")
+    live = list(range(len(case["cbs"])))
+    for n in range(case["docs"]):
+        before = len(log)
+        try:
+            with warnings.catch_warnings():
+                warnings.simplefilter("ignore")
+                disp.process(DocumentNames.event, {"n": n})
+        except Exception as e:  # noqa
+            bad.append(("reentrant:exception-escaped-process:" + type(e).__name__, f"document {n}: {type(e).__name__}: {e} escaped Dispatcher.process (ignore_exceptions={case['ignore']})"))
+        got = [i for i, m in log[before:] if m == n and i < 100]
+        if got != live:
+            bad.append(("reentrant:delivery-changed-by-subscription-change-during-dispatch", f"document {n}: callbacks live at emission {live} but delivered to {got}"))
+        for i, action in enumerate(case["cbs"]):
+            if action and action[1] == n:
+                if action[0] == "unsub_self" and i in live:
+                    live.remove(i)
+                if action[0] == "unsub_other" and action[2] in live:
+                    live.remove(action[2])
+        if bad:
+            break
+    return bad
+
+
+def reentrant_cases(rng, n):
+    out = []
+    for _ in range(n):
+        k = rng.choice([2, 3, 4])
+        cbs = [None] * k
+        i = rng.randrange(k)
+        kind = rng.choice(["unsub_self", "unsub_self", "unsub_other", "sub_new"])
+        cbs[i] = [kind, rng.randrange(0, 3)] + ([rng.randrange(k)] if kind == "unsub_other" else [])
+        out.append({"probe": "reentrant", "cbs": cbs, "docs": 4, "ignore": rng.random() < 0.5})
+    return out
+
+
 def run(ctx, model=True):
     logging.getLogger("bluesky").setLevel(logging.CRITICAL)
     res = C.Result(
@@ -219,6 +283,12 @@ def run(ctx, model=True):
             res.samples.append({"case": cases[i], "impl_replies": obss[i]["replies"], "model_replies": m["replies"], "calls": obss[i]["calls"]})
     else:
         res.samples.append({"case": cases[-1], "impl_replies": obss[-1]["replies"]})
+    for pc in reentrant_cases(ctx.rng, ctx.budget(40, 600)):
+        res.seen(pc, True)
+        res.count("impl-only-probe:reentrant-subscription-change")
+        for sig, what in reentrant_probe(pc):
+            res.violations.append(C.Violation(sig, "implementation-only probe: " + what, pc))
+    res.notes.append("re-entrant subscribe/unsubscribe during dispatch is probed on the implementation only (outside the Lean model)")
     return res
 
 
@@ -231,6 +301,10 @@ def replay(ctx, data):
     res = C.Result()
     case = data.get("case")
     if not case:
+        return res
+    if case.get("probe") == "reentrant":
+        for sig, what in reentrant_probe(case):
+            res.violations.append(C.Violation(sig, what, case))
         return res
     obs = D.run_impl(case)
     for sig, what in oracle(case, obs):
